@@ -16,6 +16,9 @@
 // session's Mcp-Session-Id, x: another one).
 // auth: the transport's OAuthHandler: none; grant (Authorize returns nil, TokenSource then yields a token); deny
 // (Authorize returns an error); block (Authorize blocks until the context it was given ends).
+// ts (with a handler): what the handler's token source does while the message is sent: tserr (TokenSource fails), tokerr
+// (Token() fails), invalidgrant (Token() fails with oauth2 invalid_grant: the request goes out without a header).
+// bg=posthang: another call of the same session is in flight the whole time (its POST accepted, never answered).
 // cancel=1: the caller's context is cancelled one virtual hour after the message was started, if it is still on its
 // way.  `hang`: the request method had not returned two virtual hours after the start (every goroutine blocked).
 package mcp
@@ -43,6 +46,7 @@ type cwScenario struct {
 	kind   string // call | notif
 	auth   string // none | grant | deny | block
 	ts     string // the handler's token source: "" = fine | tserr | tokerr | invalidgrant
+	bg     string // "" | posthang: ANOTHER call of the same session is in flight meanwhile (its POST accepted, never answered)
 	cancel bool
 	a1, a2 string
 }
@@ -55,6 +59,9 @@ func (s *cwScenario) op() string {
 	ts := ""
 	if s.ts != "" {
 		ts = " ts=" + s.ts
+	}
+	if s.bg != "" {
+		ts += " bg=" + s.bg
 	}
 	return fmt.Sprintf("wscn kind=%s auth=%s%s cancel=%d a1=%s a2=%s", s.kind, s.auth, ts, c, s.a1, s.a2)
 }
@@ -76,6 +83,11 @@ func cwParseScenario(line string) (*cwScenario, error) {
 			if v != "fine" {
 				s.ts = v
 			}
+		case "bg":
+			if v != "posthang" {
+				return nil, fmt.Errorf("bad bg")
+			}
+			s.bg = v
 		case "cancel":
 			s.cancel = v == "1"
 		case "a1":
@@ -151,7 +163,8 @@ func (h *cwAuth) Authorize(ctx context.Context, req *http.Request, resp *http.Re
 type cwServer struct {
 	s      *cwScenario
 	mu     sync.Mutex
-	phase  string // init | test | probe
+	phase  string // init | bg | test | probe
+	bgPending int
 	posts  int
 	toks   []bool
 	bad    []string
@@ -279,6 +292,17 @@ func (sv *cwServer) RoundTrip(req *http.Request) (*http.Response, error) {
 			sv.toks = append(sv.toks, req.Header.Get("Authorization") != "")
 		}
 		sv.mu.Unlock()
+		if phase == "bg" && r.Method == methodPing {
+			// the background call: accepted, never answered
+			sv.mu.Lock()
+			sv.bgPending++
+			sv.mu.Unlock()
+			<-req.Context().Done()
+			sv.mu.Lock()
+			sv.bgPending--
+			sv.mu.Unlock()
+			return nil, req.Context().Err()
+		}
 		if under {
 			switch n {
 			case 0:
@@ -378,6 +402,20 @@ func cwRun(t *testing.T, s *cwScenario) (res cwResult) {
 				return
 			}
 			synctest.Wait()
+			if s.bg == "posthang" {
+				sv.mu.Lock()
+				sv.phase = "bg"
+				sv.mu.Unlock()
+				bgCtx, bgCancel := context.WithCancel(ctx)
+				defer bgCancel()
+				go cs.Ping(bgCtx, nil)
+				synctest.Wait()
+				sv.mu.Lock()
+				if sv.bgPending != 1 {
+					sv.bad = append(sv.bad, fmt.Sprintf("bg-pending-%d", sv.bgPending))
+				}
+				sv.mu.Unlock()
+			}
 			sv.mu.Lock()
 			sv.phase = "test"
 			sv.mu.Unlock()
@@ -473,6 +511,9 @@ func cwEmit(out *verifOut, cs string, s *cwScenario, r cwResult, extra ...string
 	if s.ts != "" {
 		extra = append(extra, "ts-"+s.ts)
 	}
+	if s.bg != "" {
+		extra = append(extra, "bg-"+s.bg)
+	}
 	tags := append([]string{"kind-" + s.kind, "auth-" + s.auth, "a1-" + cls(s.a1), fmt.Sprintf("cancel-%v", s.cancel)}, extra...)
 	if r.posts >= 2 {
 		tags = append(tags, "a2-"+cls(s.a2), "retried")
@@ -493,6 +534,194 @@ func cwEmit(out *verifOut, cs string, s *cwScenario, r cwResult, extra ...string
 	}
 	out.line(cs, "end", r.end, "end-"+strings.ReplaceAll(e, ":", "-"))
 	out.line(cs, "probe", r.probe, "probe-"+r.probe)
+}
+
+// ---- the opening of the standalone stream (connectStandaloneSSE)
+//
+//	reset
+//	oscn mr=<MaxRetries field> fails=<n> ans=st<code>[e]      obs ok
+//	open                                                      obs gets=<GETs made>
+//	probe                                                     obs ok | err
+//
+// The first <fails> GETs fail in transport; the next one is answered with the status, `e`: under Content-Type
+// text/event-stream (a 2xx event stream then stays open without events).
+
+type coScenario struct {
+	mr    int
+	fails int
+	code  int
+	sse   bool
+}
+
+func (s *coScenario) op() string {
+	e := ""
+	if s.sse {
+		e = "e"
+	}
+	return fmt.Sprintf("oscn mr=%d fails=%d ans=st%d%s", s.mr, s.fails, s.code, e)
+}
+
+func coParseScenario(line string) (*coScenario, error) {
+	toks := strings.Fields(line)
+	if len(toks) != 4 || toks[0] != "oscn" {
+		return nil, fmt.Errorf("not an oscn op")
+	}
+	s := &coScenario{}
+	for _, t := range toks[1:] {
+		k, v, _ := strings.Cut(t, "=")
+		var err error
+		switch k {
+		case "mr":
+			s.mr, err = strconv.Atoi(v)
+		case "fails":
+			s.fails, err = strconv.Atoi(v)
+		case "ans":
+			v = strings.TrimPrefix(v, "st")
+			if strings.HasSuffix(v, "e") {
+				s.sse = true
+				v = strings.TrimSuffix(v, "e")
+			}
+			s.code, err = strconv.Atoi(v)
+		}
+		if err != nil {
+			return nil, err
+		}
+	}
+	return s, nil
+}
+
+type coServer struct {
+	s    *coScenario
+	mu   sync.Mutex
+	gets int
+}
+
+func (sv *coServer) RoundTrip(req *http.Request) (*http.Response, error) {
+	base := &cwServer{}
+	switch req.Method {
+	case http.MethodGet:
+		sv.mu.Lock()
+		n := sv.gets
+		sv.gets++
+		sv.mu.Unlock()
+		if n < sv.s.fails {
+			return nil, errors.New("verif: transport error")
+		}
+		ct := ""
+		if sv.s.sse {
+			ct = "text/event-stream"
+		}
+		r := base.resp(req, sv.s.code, ct, "sess", "")
+		if sv.s.sse && sv.s.code >= 200 && sv.s.code < 300 {
+			r.Body = &cwHangBody{ctx: req.Context()}
+		}
+		return r, nil
+	case http.MethodPost:
+		body, _ := io.ReadAll(req.Body)
+		msg, err := jsonrpc.DecodeMessage(body)
+		if err != nil {
+			return base.resp(req, 400, "", "sess", ""), nil
+		}
+		r, ok := msg.(*jsonrpc.Request)
+		if !ok || !r.IsCall() {
+			return base.resp(req, http.StatusAccepted, "", "sess", ""), nil
+		}
+		idJSON := fmt.Sprint(r.ID.Raw())
+		if r.Method == methodInitialize {
+			return base.resp(req, 200, "application/json", "sess", fmt.Sprintf(`{"jsonrpc":"2.0","id":%s,"result":{"capabilities":{},"protocolVersion":%q,"serverInfo":{"name":"verif","version":"0"}}}`, idJSON, protocolVersion20251125)), nil
+		}
+		return base.resp(req, 200, "application/json", "sess", fmt.Sprintf(`{"jsonrpc":"2.0","id":%s,"result":{}}`, idJSON)), nil
+	}
+	return base.resp(req, http.StatusNoContent, "", "", ""), nil
+}
+
+func coRun(t *testing.T, s *coScenario) (gets int, probe string, bad string) {
+	probe = "harness-aborted"
+	sv := &coServer{s: s}
+	func() {
+		defer func() {
+			if r := recover(); r != nil {
+				bad = "bubble:" + hxs(fmt.Sprint(r))
+			}
+		}()
+		synctest.Test(t, func(t *testing.T) {
+			client := NewClient(&Implementation{Name: "verif", Version: "0"}, nil)
+			tr := &StreamableClientTransport{Endpoint: "http://verif.invalid/mcp", HTTPClient: &http.Client{Transport: sv}, MaxRetries: s.mr}
+			ctx, cancel := context.WithCancel(context.Background())
+			defer cancel()
+			cs, err := client.Connect(ctx, tr, &ClientSessionOptions{ProtocolVersion: protocolVersion20251125})
+			if err != nil {
+				sv.mu.Lock()
+				gets = sv.gets
+				sv.mu.Unlock()
+				probe = "err" // Connect itself fails when the opening of the standalone stream has failed the connection
+				return
+			}
+			time.Sleep(2 * time.Hour)
+			synctest.Wait()
+			sv.mu.Lock()
+			gets = sv.gets
+			sv.mu.Unlock()
+			pctx, stop := context.WithTimeout(ctx, time.Hour)
+			if err := cs.Ping(pctx, nil); err != nil {
+				probe = "err"
+			} else {
+				probe = "ok"
+			}
+			stop()
+			cancel()
+			cs.Close()
+			synctest.Wait()
+		})
+	}()
+	return
+}
+
+func coEmit(out *verifOut, cs string, s *coScenario, gets int, probe, bad string, extra ...string) {
+	out.line(cs, "reset", "ok")
+	obs := "ok"
+	if bad != "" {
+		obs = "bad:" + bad
+	}
+	e := ""
+	if s.sse {
+		e = "e"
+	}
+	tags := append([]string{fmt.Sprintf("open-st%d%s", s.code, e), fmt.Sprintf("open-fails-%d", min(s.fails, 7)), fmt.Sprintf("mr%d", s.mr)}, extra...)
+	out.line(cs, s.op(), obs, tags...)
+	out.line(cs, "open", fmt.Sprintf("gets=%d", gets), fmt.Sprintf("open-gets-%d", min(gets, 9)))
+	out.line(cs, "probe", probe, "probe-"+probe)
+}
+
+// coGenerate: MaxRetries {default, 1, 2, none} x transport failures 0..budget+1 x the answers
+func coGenerate(emit func(*coScenario)) {
+	codes := []int{405, 200, 201, 204, 400, 401, 403, 404, 410, 429, 500, 502, 503, 300, 301, 304}
+	for _, mr := range []int{0, 1, 2, -1} {
+		budget := mr
+		if mr == 0 {
+			budget = 5
+		} else if mr < 0 {
+			budget = 0
+		}
+		for fails := 0; fails <= budget+2; fails++ {
+			for _, code := range codes {
+				for _, sse := range []bool{false, true} {
+					if fails > 1 && fails < budget && code != 405 && code != 500 && code != 200 {
+						continue
+					}
+					emit(&coScenario{mr: mr, fails: fails, code: code, sse: sse})
+				}
+			}
+		}
+	}
+	rng := verifRng(4343)
+	for i := 0; i < verifN(60, 600); i++ {
+		c := 300 + rng.Intn(300)
+		if http.StatusText(c) == "" {
+			c = 200 + rng.Intn(7)
+		}
+		emit(&coScenario{mr: []int{0, 1, 2, 3, -1}[rng.Intn(5)], fails: rng.Intn(5), code: c, sse: rng.Intn(3) != 0})
+	}
 }
 
 func cwAnswers() []string {
@@ -553,6 +782,23 @@ func cwGenerate(emit func(*cwScenario, string)) {
 			}
 		}
 	}
+	// another call of the session is in flight (POST accepted, never answered) while the message is sent: the calls of
+	// a session are independent
+	for _, kind := range []string{"call", "notif"} {
+		for _, auth := range []string{"none", "grant", "block"} {
+			for _, cancel := range []bool{false, true} {
+				for _, a1 := range ans {
+					a2s := []string{"terr"}
+					if auth == "grant" && cwIsAuthStatus(a1) {
+						a2s = []string{"ok:json:s", "ok:sse:s", "hang", "st503", "st404", "ok:jsonhang:s"}
+					}
+					for _, a2 := range a2s {
+						put(&cwScenario{kind: kind, auth: auth, cancel: cancel, a1: a1, a2: a2, bg: "posthang"}, "wb")
+					}
+				}
+			}
+		}
+	}
 	rng := verifRng(4242)
 	n := verifN(300, 3000)
 	if limit >= 0 {
@@ -580,6 +826,9 @@ func cwGenerate(emit func(*cwScenario, string)) {
 		if s.auth != "none" && rng.Intn(4) == 0 {
 			s.ts = []string{"tserr", "tokerr", "invalidgrant"}[rng.Intn(3)]
 		}
+		if rng.Intn(4) == 0 {
+			s.bg = "posthang"
+		}
 		if s.auth == "grant" && rng.Intn(2) == 0 {
 			s.a1 = []string{"st401", "st403", "st401r", "st403r"}[rng.Intn(4)]
 		}
@@ -597,6 +846,16 @@ func TestVerifClientWrite(t *testing.T) {
 		}
 		for _, ln := range strings.Split(string(b), "\n") {
 			ln = strings.TrimSpace(ln)
+			if strings.HasPrefix(ln, "oscn ") {
+				if s, err := coParseScenario(ln); err == nil {
+					g, p, b := coRun(t, s)
+					coEmit(out, cs, s, g, p, b, "corpus")
+				} else {
+					out.line(cs, "reset", "ok")
+					out.line(cs, ln, "bad-op", "corpus")
+				}
+				continue
+			}
 			if !strings.HasPrefix(ln, "wscn ") {
 				continue
 			}
@@ -622,6 +881,13 @@ func TestVerifClientWrite(t *testing.T) {
 		}
 	}
 	n := 0
+	if os.Getenv("VERIF_CASES") == "" {
+		coGenerate(func(s *coScenario) {
+			g, p, b := coRun(t, s)
+			coEmit(out, fmt.Sprintf("wo%d", n), s, g, p, b, "fam-wo")
+			n++
+		})
+	}
 	cwGenerate(func(s *cwScenario, fam string) {
 		cwEmit(out, fmt.Sprintf("%s%d", fam, n), s, cwRun(t, s), "fam-"+fam)
 		n++
